@@ -177,6 +177,13 @@ def run(prop, tier):
     for h in hs[:3] + hs[-3:]:
         rep.sample([{k: (codec.src(v) if k == "t" and v["k"] != "absent" else v) for k, v in a.items()
                      if v not in ("", 0) and not (k == "t" and v["k"] == "absent")} for a in h])
+    # vacuity guard: how often each action of the specification occurs in the replayed histories
+    acts = {}
+    for h in hs:
+        for a in h:
+            k = a["act"] + (":" + a["op"] if a["act"] in ("Derive", "ValueStart", "ValueSync") and a["op"] else "")
+            acts[k] = acts.get(k, 0) + 1
+    rep.extra["action_counts_in_replayed_histories"] = acts
     rep.extra.update(families=fam, verdicts=counts, rejections_owned_by_other_properties=other)
     rep.rule = ("histories = behaviours of spec/Streams.tla (TLC BFS: every maximal history of the stated length for "
                 "the property's action focus; plus seeded -simulate walks); each is replayed on real EventDataset / "
